@@ -20,6 +20,7 @@ from vf.sym import conc_bool, conc_int, isolated, untraced
 PROPERTY = "C20"
 FUNCTIONS = ["ExceptionTrace.render/_render_exception/_render_trace/_render_snippet/_render_line/ignore_files_in", "Highlighter.code_snippet/highlighted_lines/split_to_lines/line_numbers"]
 PART = {}
+EXTRA_BOUNDS = 'also: raise sites in code compiled under an empty / relative file name, in a module imported through a symbolic link, next to a multi-line string with markup; ignore patterns for a pseudo file name, a path through the link, match-everything, one with a global inline flag; one ExceptionTrace object rendered to two I/Os of independent verbosity and UTF-8 capability.'
 BOUNDS = {"quick": "kernel: every failing line 1..n, lines_before/after in [0,6] on sources of 1..9 lines; renders: 10 raise sites (top / middle / last line of the file, a file whose first line is blank, below a multi-line string containing a form feed and U+2028, "
                    "next to markup-like, tabbed and non-ASCII lines, multi-line statement, recursion 1/3/60, custom __str__, causes 1-2 deep, source-less) x 8 messages x 4 verbosities x simple on/off x UTF-8 on/off x 3 ignore patterns; two renders in one process",
           "thorough": "messages composed of two pieces; three renders in one process"}
